@@ -51,11 +51,13 @@ def count_oracle(text, o):
             counts["nodes"].append(l.split("->")[0].strip())
         elif sec == "loads":
             counts["loads"] += 1
+            if l.split()[0] not in ("fx", "fy", "mz"):
+                stray.append("load term " + l.split()[0] + " in: " + l)
         elif sec == "bars":
             counts["bars"].append(l.split("->")[0].strip())
     fails = []
     if stray:
-        fails.append("the line %r stands outside any known section and the text was accepted" % stray[0][:60])
+        fails.append("the line %r stands outside any known section or names an unknown load term, and the text was accepted" % stray[0][:60])
     if len(set(counts["nodes"])) == len(counts["nodes"]) and len(o["Nodes"] or []) != len(counts["nodes"]):
         fails.append("%d node lines, %d nodes in the structure" % (len(counts["nodes"]), len(o["Nodes"] or [])))
     if len(o["Bars"] or []) != len(counts["bars"]):
